@@ -157,6 +157,20 @@ func (o *op) coq() string {
 	panic("unknown op " + o.K)
 }
 
+// Inf as a query bound stands for +Inf (and -Inf for -Inf): the model and the Spec see the integer
+// 2^60, which is beyond every score just as the infinities are.
+const Inf = 1 << 60
+
+func fl(v int) float64 {
+	switch v {
+	case Inf:
+		return math.Inf(1)
+	case -Inf:
+		return math.Inf(-1)
+	}
+	return float64(v)
+}
+
 // a float64 score as the integer the model works with; anything else (the header sentinel's
 // -MaxFloat64, a non-integral value) becomes a value no model or spec ever produces
 func fscore(f float64) int64 {
@@ -182,7 +196,7 @@ func scoreOk(s float64, ok bool) string {
 func exec(z *zset.Set[int], o *op) (out string) {
 	src.plan(o.Hs)
 	p, pv := vhlib.Recover(func() {
-		a, b := float64(o.A), float64(o.B)
+		a, b := fl(o.A), fl(o.B)
 		opt := zset.RangeOpt{ExcludeMin: o.ExMin, ExcludeMax: o.ExMax}
 		switch o.K {
 		case "AddB":
@@ -297,6 +311,96 @@ func (r *run) do(o *op, dump bool) {
 	r.ops = append(r.ops, o)
 	if n := r.z.Len(); n > r.maxLen {
 		r.maxLen = n
+	}
+}
+
+// removalType: does o unlink a node (deleteNode)? Re-scoring an existing member may (UpdateScore's
+// delete-and-reinsert path), so AddB/IncrBy/Add on a present member count.
+func (r *run) removalType(o *op) bool {
+	switch o.K {
+	case "RemoveB", "Remove", "RemoveRangeByRank", "RemoveRangeByScore", "RemoveRangeByScoreWithOpt", "Clear":
+		return true
+	case "AddB", "IncrBy":
+		return r.z.ContainsB(o.B)
+	case "Add":
+		for _, m := range o.Ms {
+			if r.z.ContainsB(m) {
+				return true
+			}
+		}
+	}
+	return false
+}
+
+// doM executes a mutator and, when it is removal-type, follows it with the battery of traversals that
+// run past both ends of the list (back pointers, tail): every result is judged against the Spec.
+func (r *run) doM(o *op, dump bool, probe []int, large bool) {
+	rem := r.removalType(o)
+	r.do(o, dump)
+	if !rem {
+		return
+	}
+	if large {
+		r.endsBatteryLarge(probe)
+	} else {
+		r.endsBattery(probe)
+	}
+}
+
+func (r *run) bounds() (n, lo, hi int) {
+	n = r.z.Len()
+	if f := r.z.Range(0, 0); len(f) == 1 {
+		lo = int(fscore(f[0].Score))
+	}
+	if l := r.z.Range(-1, -1); len(l) == 1 {
+		hi = int(fscore(l[0].Score))
+	}
+	return
+}
+
+func (r *run) endsBattery(probe []int) {
+	n, lo, hi := r.bounds()
+	for _, ab := range [][2]int{{0, n + 2}, {-n - 2, n + 2}, {n - 1, n + 1}, {0, 0}, {n - 2, n}} {
+		r.do(&op{K: "RevRange", A: ab[0], B: ab[1]}, false)
+		r.do(&op{K: "Range", A: ab[0], B: ab[1]}, false)
+	}
+	r.do(&op{K: "RevRangeByScore", A: Inf, B: -Inf}, false)
+	r.do(&op{K: "RangeByScore", A: -Inf, B: Inf}, false)
+	for e := 0; e < 4; e++ {
+		em, ex := e&1 == 1, e&2 == 2
+		r.do(&op{K: "RevRangeByScoreWithOpt", A: Inf, B: -Inf, ExMin: em, ExMax: ex}, false)
+		r.do(&op{K: "RevRangeByScoreWithOpt", A: lo, B: -Inf, ExMin: em, ExMax: ex}, false)
+		r.do(&op{K: "RangeByScoreWithOpt", A: hi, B: Inf, ExMin: em, ExMax: ex}, false)
+		r.do(&op{K: "CountWithOpt", A: hi, B: Inf, ExMin: em, ExMax: ex}, false)
+	}
+	// a stale tail with a higher score would make IsInRange accept these empty ranges
+	for d := 1; d <= 3; d++ {
+		r.do(&op{K: "RangeByScore", A: hi + d, B: Inf}, false)
+		r.do(&op{K: "Count", A: hi + d, B: hi + 4}, false)
+		r.do(&op{K: "RevRangeByScore", A: Inf, B: hi + d}, false)
+		r.do(&op{K: "RevRangeByScore", A: lo - d, B: -Inf}, false)
+	}
+	for _, m := range probe {
+		r.do(&op{K: "RevRank", B: m}, false)
+		r.do(&op{K: "Rank", B: m}, false)
+	}
+	r.do(&op{K: "Len"}, false)
+}
+
+func (r *run) endsBatteryLarge(probe []int) {
+	n, lo, hi := r.bounds()
+	r.do(&op{K: "RevRange", A: n - 2, B: n + 2}, false)
+	r.do(&op{K: "Range", A: n - 2, B: n + 2}, false)
+	r.do(&op{K: "RevRange", A: 0, B: 0}, false)
+	r.do(&op{K: "RevRangeByScoreWithOpt", A: lo, B: -Inf, ExMin: n%2 == 0}, false)
+	r.do(&op{K: "RangeByScoreWithOpt", A: hi, B: Inf, ExMax: n%2 == 0}, false)
+	r.do(&op{K: "RangeByScore", A: hi + 1, B: Inf}, false)
+	r.do(&op{K: "Count", A: hi + 1, B: hi + 30}, false)
+	if f := r.z.Range(0, 0); len(f) == 1 {
+		r.do(&op{K: "RevRank", B: f[0].Value}, false)
+	}
+	if l := r.z.Range(-1, -1); len(l) == 1 {
+		r.do(&op{K: "RevRank", B: l[0].Value}, false)
 	}
 }
 
@@ -549,7 +653,7 @@ func main() {
 				if c.K == "AddB" || c.K == "IncrBy" {
 					c.Hs = g.hs(1)
 				}
-				run.do(c, true)
+				run.doM(c, true, g.members, false)
 			}
 			g.miniSweep(run, g.members)
 			run.emit(w, "exhaustive")
@@ -596,7 +700,7 @@ func main() {
 			run := newRun()
 			l := 12 + g.r.Intn(20)
 			for i := 0; i < l; i++ {
-				run.do(g.mutator(prof, i, run.z.Len()), true)
+				run.doM(g.mutator(prof, i, run.z.Len()), true, g.members, false)
 				for q := 0; q < 3; q++ {
 					run.do(g.query(run.z.Len()), false)
 				}
@@ -645,7 +749,7 @@ func main() {
 			for _, b := range build {
 				run.do(cloneOp(b), false)
 			}
-			run.do(x, true)
+			run.doM(x, true, g.members, false)
 			for _, k := range []string{"Len", "Size", "Values"} {
 				run.do(&op{K: k}, false)
 			}
@@ -727,7 +831,7 @@ func main() {
 					m = &op{K: "RemoveRangeByScore", A: lo, B: lo + g.r.Range(0, 1)}
 				}
 			}
-			run.do(m, i%dumpEvery == dumpEvery-1 || i == total-1)
+			run.doM(m, i%dumpEvery == dumpEvery-1 || i == total-1, nil, true)
 			// one query per step, windows instead of whole-set listings
 			n = run.z.Len()
 			var q *op
@@ -760,6 +864,63 @@ func main() {
 		run.emit(w, "large")
 	}
 
+	// ---- 5b. removals aimed at the first / last / middle element, each followed by the ends battery ----
+	nfb := 40
+	if th {
+		nfb = 600
+	}
+	for c := 0; c < nfb; c++ {
+		g := &gen{r: rng.Fork(), members: []int{0, 1, 2, 3, 4, 5}, scores: []int{-2, -1, 0, 1, 2}}
+		run := newRun()
+		k := 2 + g.r.Intn(5)
+		for i := 0; i < k; i++ {
+			run.do(&op{K: "AddB", A: g.score(), B: g.member(), Hs: g.hs(1)}, true)
+		}
+		for round := 0; round < 6; round++ {
+			cur := run.z.Range(0, -1)
+			n := len(cur)
+			if n == 0 || (n < 3 && g.r.Chance(1, 2)) {
+				run.do(&op{K: "AddB", A: g.score(), B: g.member(), Hs: g.hs(1)}, true)
+				continue
+			}
+			first, last, mid := cur[0], cur[n-1], cur[n/2]
+			fs, ls := int(fscore(first.Score)), int(fscore(last.Score))
+			var x *op
+			switch g.r.Intn(14) {
+			case 0:
+				x = &op{K: "RemoveB", B: first.Value}
+			case 1:
+				x = &op{K: "RemoveB", B: last.Value}
+			case 2:
+				x = &op{K: "RemoveB", B: mid.Value}
+			case 3:
+				x = &op{K: "Remove", Ms: []int{first.Value, last.Value}}
+			case 4:
+				x = &op{K: "RemoveRangeByRank", A: 0, B: 0}
+			case 5:
+				x = &op{K: "RemoveRangeByRank", A: -1, B: -1}
+			case 6:
+				x = &op{K: "RemoveRangeByRank", A: n / 2, B: n + 2}
+			case 7:
+				x = &op{K: "RemoveRangeByScore", A: -Inf, B: fs}
+			case 8:
+				x = &op{K: "RemoveRangeByScoreWithOpt", A: ls, B: Inf, ExMin: g.r.Bool()}
+			case 9:
+				x = &op{K: "RemoveRangeByScoreWithOpt", A: -Inf, B: int(fscore(mid.Score)), ExMax: g.r.Bool()}
+			case 10:
+				x = &op{K: "IncrBy", A: ls - fs + 1, B: first.Value, Hs: g.hs(1)} // the first element moves to the end
+			case 11:
+				x = &op{K: "IncrBy", A: fs - ls - 1, B: last.Value, Hs: g.hs(1)} // the last element moves to the front
+			case 12:
+				x = &op{K: "AddB", A: ls + 1, B: first.Value, Hs: g.hs(1)}
+			default:
+				x = &op{K: "AddB", A: fs - 1, B: mid.Value, Hs: g.hs(1)}
+			}
+			run.doM(x, true, g.members, false)
+		}
+		run.emit(w, "ends")
+	}
+
 	// ---- 6. malformed / degenerate calls ----
 	{
 		g := &gen{r: rng.Fork(), members: []int{0, 1, 2, 3}, scores: []int{-2, -1, 0, 1, 2}}
@@ -777,7 +938,11 @@ func main() {
 				{K: "Rank", B: 99}, {K: "RevRank", B: 99}, {K: "Score", B: 99}, {K: "IncrBy", A: 0, B: 0, Hs: g.hs(1)},
 				{K: "Add", Ms: []int{2, 2, 0}, Hs: g.hs(3)}, {K: "RemoveRangeByRank", A: -1000, B: 1000}, {K: "Len"}, {K: "Size"}, {K: "Empty"},
 				{K: "Clear"}, {K: "Clear"}, {K: "Values"}, {K: "AddB", A: -2, B: 0, Hs: g.hs(1)}, {K: "Size"}, {K: "Empty"}, {K: "RevRank", B: 0}} {
-				run.do(x, mutates(x.K))
+				if mutates(x.K) {
+					run.doM(x, true, g.members, false)
+				} else {
+					run.do(x, false)
+				}
 			}
 			run.emit(w, "malformed")
 		}
